@@ -86,7 +86,7 @@ class Ctx:
 
     # ---- the common F-level pattern ----------------------------------------------------------------------
     def correspond(self, label, cases, expected, observed, prop_ok=None, nontrivial=None, describe=None,
-                   vm_sample=24, known_class=None, shrink=None, env=None):
+                   vm_sample=24, known_class=None, shrink=None, env=None, shards=1):
         """cases: list of wire values [tag, arg].
         expected(case, model_result) / observed(case, impl_result): canonical comparable values.
         prop_ok(case, impl_result) -> (bool, why): the property evaluated on the implementation's observation.
@@ -94,7 +94,7 @@ class Ctx:
         if not cases:
             return
         mres = model.run_driver(cases)
-        ires = impl.run_lines(cases, env=env)
+        ires = impl.run_lines(cases, env=env, shards=shards)
         # sample re-evaluated inside Coq: keeps extraction + driver honest
         idx = list(range(len(cases)))
         pick = idx[:vm_sample // 2] + self.rng.sample(idx, min(len(idx), vm_sample // 2))
